@@ -92,6 +92,9 @@ pub fn check(shape: &Shape, value: &Value, tail: &[u8], full: bool, l: &mut Loca
 }
 
 pub fn replay(case: &Json, l: &mut Local) -> CaseResult {
+    if let Some(r) = super::corpus_checks::replay_corpus(case, l) {
+        return r;
+    }
     let shape = shape_of(case);
     let value = value_of(case);
     let tail = case.get("tail").and_then(|t| t.as_str()).map(crate::runner::unhex).unwrap_or_default();
